@@ -111,6 +111,23 @@ def run(prog, rep):
                     if sv == "lapack" and len(h) > 3 and rep.tier == "quick":
                         continue
                     jobs.append(("history", c2, cls, h))
+    # equidistant grid + parameters that are first the same for all cohorts and then vary over time (a decision taken once, at
+    # construction, on "all cohorts share one curve" is seen), and the reverse
+    for dist in ("NormalLifetime", "FixedLifetime"):
+        for over, over2 in (("number", "time"), ("time", "number"), ("number", "all")):
+            for via in ("__init__", "set_prms"):
+                eq = dict(n_t=3, labels=("a",) if over2 == "all" else (), dist=dist, over=over, over2=over2, n_pts=1, inflow_at="middle", grid="equidistant", via=via)
+                for cls, sv in (("InflowDrivenDSM", None), ("StockDrivenDSM", "manual")):
+                    for h in ("CPC", "PC", "RPC"):
+                        jobs.append(("history", dict(eq, **({"solver": sv} if sv else {})), cls, h))
+    # concrete unit grid and concrete fixed lifetimes: the survival table consists of exact zeros and ones, and WHICH entries are zero
+    # changes with the parameters (stale entries of re-used buffers behind a "skip the zeros" shortcut are seen)
+    from fractions import Fraction as _F
+    for a, b in ((_F(17, 10), _F(7, 10)), (_F(7, 10), _F(17, 10)), (_F(27, 10), _F(7, 10))):
+        fx = dict(n_t=3, labels=(), dist="FixedLifetime", over="number", n_pts=1, inflow_at="middle", grid="unit", prm_values={"A": a, "B": b})
+        for cls, sv in (("InflowDrivenDSM", None), ("StockDrivenDSM", "manual"), ("StockDrivenDSM", "lapack")):
+            for h in ("CPC", "CPDC"):
+                jobs.append(("history", dict(fx, **({"solver": sv} if sv else {})), cls, h))
     for h in SC.histories(rep.tier, False):
         jobs.append(("history", dict(n_t=3, labels=("a",), dist="NormalLifetime", over="all", n_pts=1, inflow_at="middle"), "SimpleFlowDrivenStock", h))
     run_stock_property(prog, rep, "C17", jobs, {"recompute": "C17.recompute-equals-fresh"})
